@@ -6,6 +6,7 @@ CONSTANTS
   F = "f"
   AuthorOrder <- TR_AuthorOrder
   RemoteBodies <- TR_RemoteBodies
+  RemotePrunes <- TR_RemotePrunes
   Policies = {"auto", "explicit"}
   ResetHeights <- TR_ResetHeights
 INVARIANTS
@@ -13,6 +14,7 @@ INVARIANTS
   LocksConsistent
   StoredIsAssociated
   LogsContiguous
+  PrunedOnlyBelowPruneOp
   CursorIsMaxOfAcked
   OnlyOwnTopicAcked
   ReplayExact
